@@ -82,7 +82,10 @@ MinedNat == {MinedRecs[i].n : i \in 1..Len(MinedRecs)}
 MinedShapes == {<<"lin", -1, m + d, 1, 0>> : m \in MinedNat, d \in {-1, 0, 1}}
                \cup {<<"lin", -1, 7, 1, m + d - 16>> : m \in MinedNat, d \in {-1, 0, 1}}
 MinedCodecs == {<<"for", 0>>, <<"pfor", 95>>, <<"delta_u", 0>>, <<"bp64", 0>>, <<"adaptive", -1>>}
-AllShapes == MinedShapes \cup CoreShapes \cup WidthShapes \cup OrderShapes \cup RepeatShapes \cup WideShapes
+\* neighbours exactly 2^63, 2^63 -+ 1, 2^62 apart (bits 0-1), from 0 or 5 (bit 2), ascending or descending (bit 3)
+HalfStepShapes == {<<"halfstep", p>> : p \in 0..15}
+DeltaCodecs == {"delta_u", "delta_s", "adaptive", "bpd64", "for", "pfor", "bp64", "edelta"}
+AllShapes == HalfStepShapes \cup MinedShapes \cup CoreShapes \cup WidthShapes \cup OrderShapes \cup RepeatShapes \cup WideShapes
              \cup PatchShapes \cup SamplerShapes \cup MinAtShapes \cup ZeroBlockShapes
 P(sh, i) == IF Len(sh) >= i + 1 THEN sh[i + 1] ELSE 0
 HeaderCodecs == {"for", "for_batch", "pfor", "delta_u", "delta_s", "adaptive"}
@@ -110,10 +113,12 @@ Applicable(c, n, s) ==
             \/ c[1] \in {"pfor", "adaptive"} /\ n \in {127, 256, 2288} /\ s \in PatchShapes
             \/ c[1] \in {"rle", "rle_hdr", "dict", "adaptive"} /\ n \in {241, 2288} /\ s \in RepeatShapes
             \/ c[1] \in HeaderCodecs /\ n \in {2, 17, 241} /\ s \in MinAtShapes
+            \/ c[1] \in DeltaCodecs /\ n \in {2, 3, 17} /\ s \in HalfStepShapes
             \/ c \in MinedCodecs /\ n = 17 /\ s \in MinedShapes /\ Purpose \in {"c02", "c06", "c16"}
             \/ c[1] \in BlockCodecs /\ n \in {128, 129, 130, 256, 257, 385} /\ s \in ZeroBlockShapes
          /\ (s \in MinAtShapes \/ ~(s \in MinedShapes) \/ (c \in MinedCodecs /\ n = 17 /\ Purpose \in {"c02", "c06", "c16"}))
          /\ (s \in MinAtShapes => c[1] \in HeaderCodecs /\ n \in {2, 17, 241})
+         /\ (s \in HalfStepShapes => c[1] \in DeltaCodecs /\ n \in {2, 3, 17})
          /\ (s \in ZeroBlockShapes => c[1] \in BlockCodecs /\ n \in {128, 129, 130, 256, 257, 385})
          /\ (s[1] = "periodic" => n >= 2287)
          /\ (n > 4097 => s \in CoreShapes \cup SamplerShapes \cup OrderShapes \cup {<<"fewuniq", 3>>, <<"cluster", 49>>})
